@@ -67,7 +67,16 @@ def brew_cases(ctx, rng):
             else:
                 r["f"] = [int(rng.normal(70, 8)) if (r["tgt"] and rng.random() < 0.7) else int(rng.normal(30, 8)), int(rng.integers(0, 50))]
         thr = [[1, 1], [1, 2], [1, 4], [3701, 10000], [101, 10000]][j % 5]
-        cases.append({"files": [{"rows": rows}], "folds": folds, "workers": 1 + j % 3, "cap": None, "keyw": 2,
+        extra = {}
+        if j % 7 == 3:
+            # the model's initial direction is a lower-is-better feature (Model.desc = False); the learned scores are still
+            # higher-is-better
+            for r in rows:
+                r["f"][1] = 100 - r["f"][0]
+            extra["direction"] = "f2"
+        if j % 7 == 5:
+            extra["est_offset"] = [1000000, -250000][j % 2]      # decision function with a large intercept
+        cases.append({**extra, "files": [{"rows": rows}], "folds": folds, "workers": 1 + j % 3, "cap": None, "keyw": 2,
                       "fmt": "pin", "thr": thr, "train_thr": [1, 1], "pred_chunk": int(rng.choice([11, 40, 700000])),
                       "read_chunk": 200000, "seed": j, "est": ["feat", "feat", "anti", "proba"][j % 4], "col": 1,
                       "override": True})      # the user forces use of the model: the best-feature fallback is C07's business
@@ -88,7 +97,7 @@ def run(ctx):
     direct = []
     for k, p in enumerate(x for x in g.prints if x and x[0] == "CASE"):
         c = {"raw": p[2], "tgt": p[3], "thr": p[4], "api": "method" if k % 40 == 7 else "function",
-             "scale": [1.0, 0.5, 4.0][k % 3], "shift": [0.0, -2.0][k % 2]}
+             "scale": [1.0, 0.5, 4.0][k % 3], "shift": [0.0, -2.0, 1000000.0, -300000.0][k % 4]}
         direct.append(c)
     if len(direct) < 1000:
         raise MachineryError("only %d direct calibration cases generated" % len(direct))
